@@ -174,15 +174,16 @@ type Scenario struct {
 	ConnectWrite []byte // bytes the onconnect callback writes to the conn it is handed
 	HookDelay    int    // ms: the writer goroutine of the FIRST connection is held at its start for this long (verif hook; runs alone)
 	// harness-only knobs (not part of the model's input; carried in the scenario ID for replays, see knobSuffix):
-	ReadPauseFrom int  // ms after its accept from which the panel of connection 0 stops READING what the client writes (0 = never)
-	ReadPauseTo   int  // ms at which it reads again (0 with ReadPauseFrom > 0 = never again): back-pressure on the client's writer
-	ToPanelCap    int  // capacity of the msgsToPanel channel (0 = unbuffered)
-	SharedBacking bool // all lists of one submitter are sub-slices of ONE array with spare capacity behind each of them
-	NilToPanel    bool // ConnectToPanel is given a nil msgsToPanel channel (a listen-only client)
-	SmallBuffers  bool // 4 KiB socket buffers on both ends (the peer's receive buffer, the client's send buffer through the conn handed to onconnect): a few hundred KiB block the writer while the panel is not reading, so the blocked-writer situations fit into a case line
-	Alone         bool // nothing else runs in this process meanwhile (package-level state of the library - a shared cache, a pool - would otherwise be disturbed by the other scenarios' traffic, which can HIDE a defect: seed C09-14's one-slot frame cache only hits when no other message is encoded in between)
-	SameObjects   bool // every submitter reuses ONE message object per list position: before each submission the objects are overwritten in place with that submission's content (how an application keeps "the state of button 7"); use with a Delay that lets the previous list reach the panel
-	FloodKB       int  // an extra submitter hands in 32 KiB graphics states (not listed in the case) from SubStart on until that many KiB are in or the context ends
+	ReadPauseFrom int    // ms after its accept from which the panel of connection 0 stops READING what the client writes (0 = never)
+	ReadPauseTo   int    // ms at which it reads again (0 with ReadPauseFrom > 0 = never again): back-pressure on the client's writer
+	ToPanelCap    int    // capacity of the msgsToPanel channel (0 = unbuffered)
+	SharedBacking bool   // all lists of one submitter are sub-slices of ONE array with spare capacity behind each of them
+	NilToPanel    bool   // ConnectToPanel is given a nil msgsToPanel channel (a listen-only client)
+	SmallBuffers  bool   // 4 KiB socket buffers on both ends (the peer's receive buffer, the client's send buffer through the conn handed to onconnect): a few hundred KiB block the writer while the panel is not reading, so the blocked-writer situations fit into a case line
+	SameAddrAs    string // scenarios naming the same group listen on ONE address (a port reserved for the group on first use, the process's lifetime): state a library keeps per address string carries over from one scenario of the group to the next; use with Alone, in order
+	Alone         bool   // nothing else runs in this process meanwhile (package-level state of the library - a shared cache, a pool - would otherwise be disturbed by the other scenarios' traffic, which can HIDE a defect: seed C09-14's one-slot frame cache only hits when no other message is encoded in between)
+	SameObjects   bool   // every submitter reuses ONE message object per list position: before each submission the objects are overwritten in place with that submission's content (how an application keeps "the state of button 7"); use with a Delay that lets the previous list reach the panel
+	FloodKB       int    // an extra submitter hands in 32 KiB graphics states (not listed in the case) from SubStart on until that many KiB are in or the context ends
 }
 
 // knobs travel in the ID so that a replayed case line reproduces them: name~pf700~pt0~cap16~sh
@@ -209,10 +210,15 @@ func (sc *Scenario) knobSuffix() string {
 	if sc.SmallBuffers {
 		s += "-SMALLBUF"
 	}
+	if sc.SameAddrAs != "" {
+		s += "-ADDRGRP" + sc.SameAddrAs
+	}
 	return s
 }
 
-var knobRe = regexp.MustCompile(`-(PF|PT|CAP|FLOOD)(\d+)|-(SHARED|NILTP|SAMEOBJ|SMALLBUF)`)
+var knobRe = regexp.MustCompile(`-(PF|PT|CAP|FLOOD)(\d+)|-(SHARED|NILTP|SAMEOBJ|SMALLBUF)|-ADDRGRP([a-z]+)`)
+
+var addrGroups = map[string]string{} // group -> "127.0.0.1:port"
 
 func (sc *Scenario) parseKnobs() {
 	for _, m := range knobRe.FindAllStringSubmatch(sc.ID, -1) {
@@ -234,6 +240,8 @@ func (sc *Scenario) parseKnobs() {
 			sc.SameObjects = true
 		case m[3] == "SMALLBUF":
 			sc.SmallBuffers = true
+		case m[4] != "":
+			sc.SameAddrAs = m[4]
 		}
 	}
 }
@@ -305,9 +313,16 @@ func runScenario(sc *Scenario) []Sx {
 	}
 	lg := &obsLog{start: time.Now()}
 	// a port nobody listens on until ListenFrom
-	l0, err := net.Listen("tcp", "127.0.0.1:0")
+	listenAt := "127.0.0.1:0"
+	if sc.SameAddrAs != "" && addrGroups[sc.SameAddrAs] != "" {
+		listenAt = addrGroups[sc.SameAddrAs]
+	}
+	l0, err := net.Listen("tcp", listenAt)
 	if err != nil {
 		return []Sx{L(Sym("inv"), Sym("listen"))}
+	}
+	if sc.SameAddrAs != "" {
+		addrGroups[sc.SameAddrAs] = l0.Addr().String()
 	}
 	addr := l0.Addr().String()
 	var ln net.Listener
